@@ -6,6 +6,9 @@ Every FALSE claim must be refuted and every TRUE claim discharged; exit 1 otherw
   read_after_call  a heap first read after a havocking call is arbitrary, not the entry heap
   private_local    a callee that may write everything does not reach a local whose address it was not handed
                    (A-STACK), but does reach one whose address it got
+  global_in_loop   a C global assigned in a loop is arbitrary at the loop head (found in round 3 by the clause
+                   covers: it used to keep its function-entry value there, so more_core's invariant was proved
+                   against a head state in which the free list was still empty)
   last             a cycle made of a backward goto needs a label invariant; without re-establishing it the
                    obligation fails
 usage: python3-vt -m selftest.engine_cases
@@ -108,10 +111,26 @@ def main():
             return [('TRUE: a node without successor', z3.And(reach(c.result), fx(c, c.old, c.result, 'next') == 0)),
                     ('FALSE: the argument itself', c.result == c['p'])]
 
+    class global_in_loop(Contract):
+        name = 'global_in_loop'
+
+        def pre(self, c):
+            return [('n', z3.And(c['n'] >= 0, c['n'] < 1000)), ('g', c.global_value(c.old, 'counter_g', 64) == 0)]
+
+        def frame(self, c):
+            return Frame(ghost=['counter_g'])
+
+        loops = {0: LoopSpec(invariant=lambda c, st: [('bounds', z3.And(c.local(st, 'i') >= 0, c.local(st, 'i') <= c['n'])),
+                                                      ('even', c.global_value(st, 'counter_g', 64) == 2 * c.local(st, 'i'))])}
+
+        def post(self, c):
+            return [('FALSE: the global is still 0', z3.Implies(c['n'] > 0, c.result == 0)),
+                    ('TRUE: twice n', c.result == 2 * c['n'])]
+
     bad = 0
-    for K in (unknown, fill, branch_write, read_after_call, last, private_local, handed_local):
+    for K in (unknown, global_in_loop, fill, branch_write, read_after_call, last, private_local, handed_local):
         R.add(K)
-    for K in (branch_write, read_after_call, last, private_local, handed_local):
+    for K in (branch_write, read_after_call, last, private_local, handed_local, global_in_loop):
         ex = Exec(tu, R, K.name, R.contracts[K.name])
         obs = [o for o in ex.run() if o.kind == 'ensures']
         for ob, verdict, info in smt.discharge(obs, timeout_s=30):
